@@ -43,7 +43,11 @@ def jobs(tier):
             j.canary = False
             j.imported = True
             J.append(j)
-    return J + [V.Job("through_line_mapped", H, "h_through_line_mapped", ["vnacal_layout.c"],
+    return J + wrapper_jobs(tier)
+
+
+def wrapper_jobs(tier):
+    return [V.Job("through_line_mapped", H, "h_through_line_mapped", ["vnacal_layout.c"],
                   strip={"vnacal_new_add_common.c": ["_vnacal_new_add_common"]},
                   unwind=6, union_struct=True, kind="proof", canary=True,
                   functions=["vnacal_new_add_through", "vnacal_new_add_through_m", "vnacal_new_add_line",
